@@ -306,7 +306,7 @@ def r45_nothing_swallows(ctx):
     # status: the interrupted record has to be a prefix of the full one
     nfin = 0
     for m in repo.modules.values():
-        if not m.name.startswith('droop'):
+        if not (m.name.startswith('droop') or m.name == 'Droop'):
             continue
         for t in ast.walk(m.tree):
             if not isinstance(t, ast.Try):
